@@ -31,6 +31,22 @@ DODO = textwrap.dedent('''
         return {'actions': [(say, ['run cached'])], 'setup': ['lazy'], 'uptodate': [UTD], 'teardown': [(say, ['td cached'])]}
     def task_lazy():
         return {'actions': [(say, ['run lazy'])], 'teardown': [(say, ['td lazy'])]}
+    # one list OBJECT used as `setup` by two tasks, one of which also has getargs (an implicit setup-task is
+    # appended to ITS setup-tasks, not to the list written here)
+    COMMON = ['env2']
+    def task_env2():
+        return {'actions': [(say, ['run env2'])], 'teardown': [(say, ['td env2'])]}
+    def compute():
+        say('run compute')
+        return {'v': 42}
+    def task_compute():
+        return {'actions': [compute], 'teardown': [(say, ['td compute'])]}
+    def use(v):
+        say('run wa')
+    def task_wa():
+        return {'actions': [use], 'setup': COMMON, 'getargs': {'v': ('compute', 'v')}, 'teardown': [(say, ['td wa'])]}
+    def task_wb():
+        return {'actions': [(say, ['run wb'])], 'setup': COMMON, 'teardown': [(say, ['td wb'])]}
     @create_after(executed='pre')
     def task_late():
         for n in ('a', 'b'):
@@ -80,6 +96,26 @@ def cli_part(ctx, out):
                     bad('setup-not-lazy', 'setup-task lazy was executed although its requirer is up-to-date')
                 if not utd and ('lazy' not in runs or 'cached' not in runs):
                     bad('setup-missing', 'requirer cached or its setup-task lazy did not run')
+    # a setup-task runs only for the task that requires it: `wb` shares its setup LIST with `wa` (which has getargs
+    # from `compute`); selecting only `wb` must not run `compute`
+    for rname, args in (('serial', []), ('thread', ['-n', '2', '-P', 'thread']), ('proc', ['-n', '2'])):
+        d = tempfile.mkdtemp(prefix='c11s_', dir=ctx.tmp); n += 1
+        src = DODO.replace('BOOM', '').replace('UTD', 'False')
+        open(os.path.join(d, 'dodo.py'), 'w').write(src)
+        try:
+            p = subprocess.run([sys.executable, '-m', 'doit', 'run', '--continue'] + args + ['wb'], cwd=d, env=common.impl_env(),
+                               capture_output=True, text=True, timeout=120)
+            rc = p.returncode
+        except subprocess.TimeoutExpired:
+            rc = 98
+        log = open(os.path.join(d, 'log.txt')).read().split('\n')[:-1] if os.path.exists(os.path.join(d, 'log.txt')) else []
+        runs = [l[4:] for l in log if l.startswith('run ')]
+        out.count('cli-shared-setup:%s:rc%s' % (rname, rc)); out.evaluations += 1
+        case = dict(dodo=src, args=args + ['wb'], log=log, exit=rc)
+        if rc != 0 or sorted(runs) != ['env2', 'wb']:
+            out.violations.append(dict(
+                what='`doit run wb` executed %s (exit %s), expected exactly env2 (its setup-task) and wb: `compute` is the getargs source of ANOTHER task that merely shares the setup list object (%s runner)' % (runs, rc, rname),
+                shape='c11:cli-setup-of-another-task', case=case))
     out.extra['cli_runs'] = n
 
 
